@@ -377,6 +377,53 @@ void h_alloc(void)
     }
 }
 
+/* further owners of the same buffer, to reach the owner counts the counterexample names
+ * (array objects are all owners: hard == soft) */
+static cstl_array_t vf_nat_others[8];
+static cstl_weak_ptr_t vf_nat_weak[8];
+static void vf_nat_owners(cstl_array_t * a)
+{
+    size_t i;
+    VF_IN_SIZE(hard); VF_IN_SIZE(soft);
+    VF_ASSUME(vf_w_hard <= vf_w_soft && vf_w_hard >= 1 && vf_w_soft <= 8);
+    for (i = 1; i < vf_w_hard; i++) { cstl_array_init(&vf_nat_others[i]); cstl_array_unslice(a, &vf_nat_others[i]); }
+    /* weak references to the same bookkeeping block (an array object's handle is a shared pointer) */
+    for (i = vf_w_hard; i < vf_w_soft; i++) { cstl_weak_ptr_init(&vf_nat_weak[i]); cstl_weak_ptr_from(&vf_nat_weak[i], &a->ptr); }
+}
+#ifndef VF_STRAY
+void h_reset(void)
+{
+#ifdef VF_A_EMPTY
+    cstl_array_t e; cstl_array_init(&e); cstl_array_reset(&e);
+    VF_NCHECK(cstl_array_data(&e) == NULL && cstl_array_size(&e) == 0 && e.off == 0, "reset of an empty object leaves it empty");
+#else
+    cstl_array_t * a = vf_native_view();
+    vf_nat_owners(a);
+    cstl_array_reset(a);
+    VF_NCHECK(cstl_array_data(a) == NULL && cstl_array_size(a) == 0 && a->off == 0, "reset leaves the object empty (offset and length 0)");
+    if (vf_w_hard > 1) VF_NCHECK(cstl_array_data(&vf_nat_others[1]) != NULL, "the buffer stays alive for the other objects that refer to it (ASan: no use after free)");
+#endif
+}
+void h_unslice(void)
+{
+    cstl_array_t * a = vf_native_view(), other, * s = &other;
+    cstl_array_init(&other);
+#ifdef VF_A_INPLACE
+    s = a;
+#endif
+    vf_nat_owners(a);
+    cstl_array_unslice(a, s);                    /* source view a, destination s (a itself when in place) */
+    VF_NCHECK(s->off == 0 && s->len == vf_w_nm && cstl_array_data(s) != NULL, "unslice: the whole buffer, from offset 0");
+    if (vf_w_nm > 0) { volatile char c = *(const char *)cstl_array_at_const(s, vf_w_nm - 1); (void)c; }    /* ASan: the buffer is alive */
+}
+void h_release(void)
+{
+    cstl_array_t * a = vf_native_view(); void * buf = &buf;
+    vf_nat_owners(a);
+    cstl_array_release(a, &buf);
+    VF_NCHECK(buf == NULL && cstl_array_data(a) != NULL && a->off == vf_w_off && a->len == vf_w_len, "release of an internal buffer: NULL, nothing changes");
+}
+#endif
 #ifdef VF_STRAY
 /* C20 replay: a bitwise copy of an array object (empty, and holding a buffer) must end in abort() */
 static void vf_stray_call(void * x)
@@ -421,7 +468,7 @@ struct vf_harness vf_harnesses[] = {
 #ifdef VF_STRAY
     { "h_stray", h_stray },
 #else
-    { "h_slice", h_slice }, { "h_at", h_at }, { "h_alloc", h_alloc },
+    { "h_slice", h_slice }, { "h_at", h_at }, { "h_alloc", h_alloc }, { "h_reset", h_reset }, { "h_unslice", h_unslice }, { "h_release", h_release },
 #endif
     { NULL, NULL }
 };
